@@ -66,7 +66,7 @@ class Tr:
                 return ".useWaitall"
             if e.id not in self.locals and e.id in self.g and type(self.g[e.id]) is int:
                 return "(.lit (.int %d))" % self.g[e.id]          # a module-level integer constant
-            return "(.var %s)" % q(e.id)
+            return "(.var %s)" % q(self.nm(e.id))
         if isinstance(e, ast.Attribute) and isinstance(e.value, ast.Name) and e.value.id == "self":
             return "(.var %s)" % q("self." + e.attr)
         if isinstance(e, ast.Dict) and not e.keys:
@@ -153,10 +153,12 @@ class Tr:
                 return ".skip"                                        # docstring
             if isinstance(v, ast.Call) and isinstance(v.func, ast.Attribute):
                 if v.func.attr == "extend" and isinstance(v.func.value, ast.Name) and len(v.args) == 1:
-                    return "(.extend %s %s)" % (q(v.func.value.id), self.expr(v.args[0]))
+                    return "(.extend %s %s)" % (q(self.nm(v.func.value.id)), self.expr(v.args[0]))
                 if self.is_sock_call(v, "sendall") and len(v.args) == 1:
                     return "(.sendall %s)" % self.expr(v.args[0])
-                if ast.unparse(v) == "time.sleep(next(delays))" and self.g.get("time") is __import__("time"):
+                if ast.unparse(v.func) == "time.sleep" and self.g.get("time") is __import__("time") and len(v.args) == 1 \
+                        and isinstance(v.args[0], ast.Call) and ast.unparse(v.args[0].func) == "next" and len(v.args[0].args) == 1 \
+                        and isinstance(v.args[0].args[0], ast.Name):
                     return ".sleep"
             raise Untranslatable("statement %s" % ast.unparse(s))
         if isinstance(s, ast.Assert) and s.msg is None:
@@ -189,12 +191,12 @@ class Tr:
                         import socket
                         if self.resolve(v.args[1]) != socket.MSG_WAITALL:
                             raise Untranslatable("recv flags %s" % ast.unparse(v.args[1]))
-                    return "(.recv %s %s)" % (q(t.id), self.expr(v.args[0]))
+                    return "(.recv %s %s)" % (q(self.nm(t.id)), self.expr(v.args[0]))
                 if self.is_sock_call(v, "send") and len(v.args) == 1:
-                    return "(.send %s %s)" % (q(t.id), self.expr(v.args[0]))
-                return "(.assign %s %s)" % (q(t.id), self.expr(v))
+                    return "(.send %s %s)" % (q(self.nm(t.id)), self.expr(v.args[0]))
+                return "(.assign %s %s)" % (q(self.nm(t.id)), self.expr(v))
             if isinstance(t, ast.Attribute) and t.attr == "partialData" and isinstance(t.value, ast.Name):
-                return "(.setPartial %s %s)" % (q(t.value.id), self.expr(v))
+                return "(.setPartial %s %s)" % (q(self.nm(t.value.id)), self.expr(v))
             raise Untranslatable("assignment %s" % ast.unparse(s))
         if isinstance(s, ast.AugAssign) and isinstance(s.op, ast.Add) and isinstance(s.target, (ast.Name, ast.Attribute)):
             return "(.augAdd %s %s)" % (q(self.target(s.target)), self.expr(s.value))
@@ -207,7 +209,7 @@ class Tr:
             for hd in reversed(s.handlers):
                 if hd.type is None:
                     raise Untranslatable("bare except")
-                bind = "(some %s)" % q(hd.name) if hd.name else "none"
+                bind = "(some %s)" % q(self.nm(hd.name)) if hd.name else "none"
                 h = "(.excMatch %s %s %s %s)" % (self.cls(hd.type), bind, self.block(hd.body), h)
             return "(.try_ %s %s)" % (self.block(s.body), h)
         if isinstance(s, ast.Return):
@@ -230,9 +232,12 @@ class Tr:
             return ".skip"
         raise Untranslatable("statement %s" % ast.unparse(s).splitlines()[0])
 
+    def nm(self, name):
+        return getattr(self, "rename", {}).get(name, name)
+
     def target(self, t):
         if isinstance(t, ast.Name):
-            return t.id
+            return self.nm(t.id)
         if isinstance(t, ast.Attribute) and isinstance(t.value, ast.Name) and t.value.id == "self":
             return "self." + t.attr
         raise Untranslatable("assignment target %s" % ast.unparse(t))
@@ -241,7 +246,20 @@ class Tr:
         fn = getattr(owner or self.m, name)
         tree = ast.parse(textwrap.dedent(inspect.getsource(fn)))
         fd = tree.body[0]
-        self.locals = {a.arg for a in fd.args.args} | {n.id for n in ast.walk(fd) if isinstance(n, ast.Name) and isinstance(n.ctx, ast.Store)}
+        self.locals = {a.arg for a in fd.args.args} | {n.id for n in ast.walk(fd) if isinstance(n, ast.Name) and isinstance(n.ctx, ast.Store)} \
+            | {h.name for h in ast.walk(fd) if isinstance(h, ast.ExceptHandler) and h.name}
+        # canonical names: parameter k -> "p<k>", locals -> "v<k>" in the order in which the source first binds them,
+        # so that renaming a local (or a parameter) does not change the transcription
+        self.rename = {a.arg: "p%d" % k for k, a in enumerate(fd.args.args) if a.arg not in ("self", self.sock)}
+        binders = []
+        for n in ast.walk(fd):
+            if isinstance(n, ast.Name) and isinstance(n.ctx, ast.Store):
+                binders.append((n.lineno, n.col_offset, n.id))
+            elif isinstance(n, ast.ExceptHandler) and n.name:
+                binders.append((n.lineno, n.col_offset, n.name))
+        for _, _, name in sorted(binders):
+            if name not in self.rename:
+                self.rename[name] = "v%d" % sum(1 for v in self.rename.values() if v.startswith("v"))
         got = [a.arg for a in fd.args.args]
         if got != params or fd.args.vararg or fd.args.kwarg or fd.args.kwonlyargs or fd.decorator_list:
             raise Untranslatable("%s%r: signature changed (expected %r)" % (name, got, params))
